@@ -2,6 +2,7 @@
   C12 — every emitted command is a well-formed, device-acceptable frame; message ids advance by
   one modulo 256 indefinitely.  ONLY property theorems and non-vacuity examples live here.
 -/
+import Msmart.Lemmas.CodecEq
 import Msmart.Model.Command
 import Msmart.Spec.FrameSpec
 import Msmart.Lemmas.Crc
@@ -136,6 +137,20 @@ theorem message_id_step (cs : List Cmd) (counter : Nat)
   exact ⟨body, hp⟩
 
 /-! non-vacuity: concrete commands meet the hypotheses -/
+/-! ### the command bodies as translated from the source text (tie by translation, `Generated/Codec.lean`) -/
+
+/-- **C12 about the translated code.** The bodies the translated `tobytes` methods hand to `Command.tobytes` are the
+    bodies of the model's commands (for which `command_wellformed` is proved) - for every parameter value. -/
+theorem command_bodies_code :
+    Generated.Codec.getStateBody (((Generated.temperatureType.lookup "INDOOR").getD 0 : Nat) : Int) = Cmd.body .getState ∧
+    Generated.Codec.getEnergyBody = Cmd.body .getEnergy ∧
+    Generated.Codec.getHumidityBody = Cmd.body .getHumidity ∧
+    (∀ a, Generated.Codec.getCapabilitiesBody a = Cmd.body (.getCapabilities a)) ∧
+    (∀ b, Generated.Codec.toggleDisplayBody b = Cmd.body (.toggleDisplay b)) ∧
+    (∀ s, CodecEq.setStateCode s = Cmd.body (.setState s)) :=
+  ⟨CodecEq.getState_eq, CodecEq.getEnergy_eq, CodecEq.getHumidity_eq, CodecEq.getCapabilities_eq,
+   CodecEq.toggleDisplay_eq, CodecEq.setStateBody_eq⟩
+
 example : ∃ f, ((Cmd.getState).toBytes 0).1 = .ok f := ⟨_, rfl⟩
 example : ((Cmd.setState {}).toBytes 255).2 = 256 := rfl
 example : ∃ b, (Cmd.setProperties [(pidIeco, 1), (pidBuzzer, 0)]).body = .ok b := ⟨_, rfl⟩
